@@ -50,6 +50,9 @@ class PatchedStringIO(StringIO):
     def write(self, *args, **kwargs):
         raise self.exception
 
+    def writelines(self, *args, **kwargs):
+        raise self.exception
+
 
 class PatchedSocket:
     __slots__ = ('exception',)
